@@ -52,6 +52,21 @@ CHECKS = {
   text="Proof: visit_time_ranges is modelled per component type over integer seconds; for all values each table line's emitted ranges overlap a filter range iff the RFC condition (written independently) holds; the visitor's early exit equals 'some occurrence overlaps' for occurrences in non-decreasing order (proved for DAILY/WEEKLY progressions); the hull encloses every range, so skipping by hull and claiming a match by hull are both sound when ranges are well formed - hence an always-true extra condition cannot change a result. Tie: objects and boundary-placed ranges from the property's grammar through comp_match, find_time_range and real calendar-query REPORTs (with the extra condition before/after) vs the model driver and an RFC oracle over independently computed occurrences.",
   note="Trusted: Lean kernel, standard axioms; vobject/dateutil produce the arithmetic progression for DAILY/WEEKLY rules (validated by the oracle); integer seconds. Free-busy periods are not modelled yet. Known finding F9 (ill-formed override) is outside the grammar and reported as KNOWN-FINDING.",
   ref="5/C16"),
+ "C01": dict(
+  technique="Lean 4 model of an ideal in-memory DAV store with the handlers' decision logic (decide + apply) and sanity theorems + history-level differential correspondence of the real application (both file-system back-ends, several cache layouts) with the model after every request",
+  text="The property is a refinement claim: the implementation behaves like the ideal store. The ideal store and all handlers (gate, MKCOL, MKCALENDAR, PUT item/whole, DELETE, MOVE, PROPPATCH, GET, PROPFIND, multiget) are a total Lean function; theorems fix what 'ideal' means (last write wins, other names untouched, deleted names gone, errors are the identity). The refinement itself is checked by correspondence: random request histories run against the real Application on multifilesystem and multifilesystem_nolock and against the compiled model; status, ETag headers (as a bijection with content ids), listings and a full storage-API dump must agree after every request, and the back-ends must agree with each other.",
+  note="Level: proof for the model's theorems, correspondence (not proof) for model = code; the multifilesystem-to-ideal-store refinement is not proved in Lean (DESIGN.md 5/C01). Trusted: Lean kernel, standard axioms; davsim translation; bodies limited to the object pool; SHA-256 injective.",
+  ref="5/C01"),
+ "C08": dict(
+  technique="Lean 4 theorems on the PUT/DELETE precondition logic of the handler model (If-Match only with the current ETag, If-None-Match:* only on absent resources, stale conditional write not carried out, errors are the identity, collection ETag injective in members and properties) + correspondence on conditional-request histories with ETags read through four paths",
+  text="Proof: on the handler model a conditional PUT/DELETE of an item that is carried out found exactly the ETag asked for, If-None-Match:* lets a PUT through only on an absent name, a writer holding a stale ETag is not carried out (lost update excluded for serial orders), 4xx answers change nothing. Tie: histories with current/stale/foreign/malformed/* preconditions against the real application; every ETag is read back through PUT response, GET, HEAD, PROPFIND and REPORT and must be one value per content (bijection with the model's content ids); 412 leaves dump unchanged.",
+  note="Trusted: Lean kernel, standard axioms; SHA-256 as a perfect hash; interleavings of racing writers are reduced to serial orders by C09/C10/C11; `If-Match: *` on PUT behaves as the code does (412).",
+  ref="5/C08"),
+ "C15": dict(
+  technique="Lean 4 theorem: every handler of the model decides on no update whenever it answers with an error status (all nine request kinds, all stores and policies) + correspondence on invalid-request-biased histories with a byte-level unchanged-store oracle, well-formedness monitor and the offline verifier",
+  text="Proof: the handler model is split into decide (status + optional update) and apply; for every request kind, store, policy and user an answer >= 400 carries no update, so the store is exactly as after the automatic home-collection step; read-only methods never update. Tie: histories in which a quarter of the requests are outside the valid vocabulary (broken RRULE, missing/duplicate UIDs, several objects, mixed types, malformed XML, unknown resource types) and the rest from the model's vocabulary; after every request: status and dump vs model, errors leave the API dump and the bytes of the collection tree unchanged, no duplicate UIDs per collection, no collection inside a calendar/address book, verify() succeeds.",
+  note="Partial: the inductive well-formedness invariant of the model is being proved separately (Props/C15Inv.lean when present); until then well-formedness is checked by the monitor only. Known finding F19 (empty VCALENDAR accepted) is reported as KNOWN-FINDING. Trusted: Lean kernel, standard axioms; davsim; vobject inside verify().",
+  ref="5/C15"),
 }
 
 NA_REASON = "check not built yet (work in progress; see DESIGN.md section 5 for the plan)"
